@@ -1291,6 +1291,10 @@ package connect
 // gRPC-Web (PROTOCOL-WEB.md): the trailers frame is an HTTP/1 header block whose
 // field names are lower-case.
 // lowerOf / strings.ToLower: /verif/specs/10_strconv_strings.spec
+//@ spec subl(a strlist, b strlist) bool = forall i int :: {a[i]} 0 <= i && i < len(a) ==> lmem(b, a[i])
+//@ lemma lmem_concat(a strlist, b strlist, x seq): lmem(a ++ b, x) <==> (lmem(a, x) || lmem(b, x))
+//@   tags C02, C05
+//@   trigger lmem(a ++ b, x)
 //@ func (*grpcMarshaler).MarshalWebTrailers(m, trailer) res
 //@   tags C05, C02
 //@   requires m != nil && envOK(m.envelopeWriter) && trailer != nil
@@ -1298,8 +1302,12 @@ package connect
 //@   assigns out(m.envelopeWriter.writer), mapof(trailer), mapvals(trailer)
 //@   ensures res != nil ==> coded(res)
 //@   assert@call((http.Header).Write#1): arg0 == trailer && (forall k seq :: {mapdom(trailer, k)} mapdom(trailer, k) ==> lowerOf(k) == k)   // label: web-trailer-field-names-are-lower-case
+//@   assert@call((http.Header).Write#1): forall k seq :: {old(mapdom(trailer, k))} old(mapdom(trailer, k)) ==> mapdom(trailer, lowerOf(k)) && subl(old(mapval(trailer, k)), mapval(trailer, lowerOf(k)))   // label: every-value-is-still-there-under-the-lower-case-name   // tags: C02, C11
+//@   use lmem_concat
 //@   loop 1:
 //@     invariant forall k seq :: {mapdom(trailer, k)} mapdom(trailer, k) && lowerOf(k) != k ==> before(mapdom(trailer, k)) && !iterated(k)
+//@     invariant forall k seq :: {before(mapdom(trailer, k))} before(mapdom(trailer, k)) && lowerOf(k) != k && !iterated(k) ==> mapdom(trailer, k) && mapval(trailer, k) == before(mapval(trailer, k))
+//@     invariant forall k seq :: {before(mapdom(trailer, k))} before(mapdom(trailer, k)) && (lowerOf(k) == k || iterated(k)) ==> mapdom(trailer, lowerOf(k)) && subl(before(mapval(trailer, k)), mapval(trailer, lowerOf(k)))
 //@     assigns mapof(trailer), mapvals(trailer)
 //@ constfield grpcHandlerConn.request, grpcHandlerConn.responseWriter, grpcHandlerConn.responseHeader, grpcHandlerConn.responseTrailer, grpcHandlerConn.bufferPool, grpcHandlerConn.protobuf, grpcHandlerConn.web
 //@ macro tkey(k seq) seq = canon("Trailer:" ++ k)
